@@ -37,23 +37,27 @@ func (m c16CertMatcher) PrecertificateMatches(*ct.Precertificate) bool { return 
 func Harness_C16_processEntry() {
 	precert := vChoice("entry-is-precert", 2) == 1
 	precertOnly := vChoice("precert-only", 2) == 1
-	leafMatcher := vChoice("leaf-matcher", 2) == 1
+	matcherKind := vChoice("matcher-kind", 3) // certificate matcher | leaf matcher | none given: the documented default selects everything
+	leafMatcher := matcherKind == 1
 	selCert, selPre := vChoice("matcher-selects-certs", 2) == 1, vChoice("matcher-selects-precerts", 2) == 1
 	parse := vChoice("parse", 3) // ok | non-fatal error | fatal error
 	k := 1
 	entry := c16Leaf(k, precert)
-	s := &Scanner{}
-	s.opts.PrecertOnly = precertOnly
-	if leafMatcher {
+	opts := ScannerOptions{PrecertOnly: precertOnly}
+	switch matcherKind {
+	case 1:
 		sel := make([]bool, 3)
 		sel[k] = selCert
 		if precert {
 			sel[k] = selPre
 		}
-		s.opts.Matcher = c16Matcher{sel: sel}
-	} else {
-		s.opts.Matcher = c16CertMatcher{cert: selCert, pre: selPre}
+		opts.Matcher = c16Matcher{sel: sel}
+	case 0:
+		opts.Matcher = c16CertMatcher{cert: selCert, pre: selPre}
+	default:
+		vAssume(selCert && selPre)
 	}
+	s := NewScanner(&c16ParLog{}, opts) // the scanner as its constructor configures it
 	c16Parsed = &ct.LogEntry{Index: 7, Leaf: ct.MerkleTreeLeaf{TimestampedEntry: &ct.TimestampedEntry{}}}
 	if precert {
 		c16Parsed.Precert = &ct.Precertificate{}
